@@ -56,6 +56,18 @@ Theorem C18_every_call_during : forall s0 ops k api p d,
 Proof. exact every_call_during. Qed.
 Print Assumptions C18_every_call_during.
 
+(* The executable given as a bare command name: os/exec would look it up in
+   $PATH, so that is the file that is checked; only a checked file is started. *)
+Theorem C18_every_call_bare : forall s0 ops k api l q,
+  nth_error ops k = Some (OpExecBare api l q) ->
+  let s := state_at s0 ops k in
+  nth_error (run s0 ops) k = Some (EvCall (exec_bare s l q))
+  /\ (forall f u g m, exec_bare s l q = Ran f u g m ->
+        exists q', q = Some q' /\ eval_symlinks s q' = RFile f u g m /\ root_controlled u g m)
+  /\ exec_bare s l q <> Panicked.
+Proof. exact every_call_bare. Qed.
+Print Assumptions C18_every_call_bare.
+
 (* The configuration file: with a command sensor or fan declared, validation
    accepts only if the file (after symlink resolution) passes the same test,
    and a file that does not pass is rejected with the permission error. *)
